@@ -727,6 +727,22 @@ fn build_root(seed: &[u8], s: &RootSpec, vi: usize, valid_for_version: bool) -> 
     r.header.n_doodad_sets = r.doodad_sets.len() as u32;
     r.bounding_box = mkbb(&pg.bounding_box, s.bbox);
     r.convex_volume_planes = None;
+    // spare capacity everywhere: a count taken from capacity() instead of len() must show
+    r.textures.reserve(5);
+    r.materials.reserve(5);
+    r.groups.reserve(5);
+    r.portals.reserve(5);
+    r.portal_references.reserve(5);
+    r.visible_block_lists.reserve(5);
+    r.lights.reserve(5);
+    r.doodad_defs.reserve(5);
+    r.doodad_sets.reserve(5);
+    for p in r.portals.iter_mut() {
+        p.vertices.reserve(3);
+    }
+    for l in r.visible_block_lists.iter_mut() {
+        l.reserve(3);
+    }
     Ok(r)
 }
 
@@ -836,9 +852,9 @@ fn skybox_pred(s: &RootSpec, vi: usize) -> &'static str {
     }
 }
 /// Trigger predicate attached to an item of the root projection (partitions the known findings).
-fn root_item_pred(s: &RootSpec, item: &str, vi: usize) -> &'static str {
+fn root_item_pred(s: &RootSpec, item: &str, vi: usize, npred: &'static str) -> &'static str {
     match item {
-        "groups.name" => if s.names_differ { "names-differ" } else { "names-same" },
+        "groups.name" => npred,
         "bounding_box" => if s.bbox_free { "bbox-free" } else { "bbox-is-group-union" },
         "doodad_defs.name_offset" => if s.doodad_free { "doodad-offsets-free" } else { "doodad-offsets-canonical" },
         "skybox" => skybox_pred(s, vi),
@@ -854,12 +870,16 @@ fn expected_root(model: &WmoRoot, s: &RootSpec, vi: usize) -> Proj {
     want
 }
 
-fn mohd_field(off: usize) -> &'static str {
-    match off {
-        0..=27 => "MOHD.counts",
-        28..=31 => "MOHD.ambient",
-        32..=35 => "MOHD.flags",
-        36..=59 => "MOHD.bbox",
+fn mohd_field(off: usize, len: usize) -> &'static str {
+    // 64 bytes: the format's SMOHeader; 60 bytes: the layout the writer emits today (flags in the wmoID slot)
+    match (off, len) {
+        (0..=27, _) => "MOHD.counts",
+        (28..=31, _) => "MOHD.ambient",
+        (32..=35, 64) => "MOHD.wmo_id",
+        (32..=35, _) => "MOHD.flags",
+        (36..=59, _) => "MOHD.bbox",
+        (60..=61, 64) => "MOHD.flags",
+        (62..=63, 64) => "MOHD.num_lod",
         _ => "MOHD.tail",
     }
 }
@@ -881,7 +901,7 @@ fn rewrite_diff(b1: &[u8], b2: &[u8], known: &[&str]) -> Vec<String> {
             if id == "MOHD" && d1.len() == d2.len() {
                 for k in 0..d1.len() {
                     if d1[k] != d2[k] {
-                        out.insert(mohd_field(k).to_string());
+                        out.insert(mohd_field(k, d1.len()).to_string());
                     }
                 }
             } else {
@@ -894,12 +914,13 @@ fn rewrite_diff(b1: &[u8], b2: &[u8], known: &[&str]) -> Vec<String> {
     }
     out.into_iter().collect()
 }
-fn rewrite_pred(s: &RootSpec, part: &str, vi: usize) -> &'static str {
+const MAIN_PARTS: [&str; 18] = ["MOHD.counts", "MOHD.ambient", "MOHD.flags", "MOHD.bbox", "MOTX", "MOMT", "MOGN", "MOGI", "MOSB", "MOPV", "MOPT", "MOPR", "MOVV", "MOVB", "MOLT", "MODS", "MODN", "MODD"];
+fn rewrite_pred(s: &RootSpec, part: &str, vi: usize, npred: &'static str) -> &'static str {
     match part {
-        "MOGN" => root_item_pred(s, "groups.name", vi),
+        "MOGN" => npred,
         "MOSB" | "MOHD.flags" => skybox_pred(s, vi),
-        "MOHD.bbox" => root_item_pred(s, "bounding_box", vi),
-        "MODN" | "MODD" => root_item_pred(s, "doodad_defs.name_offset", vi),
+        "MOHD.bbox" => root_item_pred(s, "bounding_box", vi, npred),
+        "MODN" | "MODD" => root_item_pred(s, "doodad_defs.name_offset", vi, npred),
         _ => "-",
     }
 }
@@ -1003,8 +1024,11 @@ fn check_root_case(c: &mut Case, seed: &[u8], s: &RootSpec) {
         }
         // MOGN via MOGI name offsets
         let (mogn, mogi) = (data(&b1, &cks, "MOGN"), data(&b1, &cks, "MOGI"));
+        // trigger predicate for everything that depends on group-name offsets: names differ AND the writer left
+        // every MOGI name offset at the placeholder 0 (any other way of getting names wrong is a different signature)
+        let offsets_all_zero = mogi.len() == 32 * s.groups.len() && (0..s.groups.len()).all(|i| u32at(mogi, 32 * i + 28) == 0);
+        let npred: &'static str = if !s.names_differ { "names-same" } else if offsets_all_zero { "names-differ,offsets-all-0" } else { "names-differ,offsets-set" };
         if mogi.len() == 32 * s.groups.len() {
-            let npred = root_item_pred(s, "groups.name", vi);
             for (i, g) in s.groups.iter().enumerate() {
                 let o = u32at(mogi, 32 * i + 28);
                 let got = cstr_at(mogn, o as usize);
@@ -1038,7 +1062,7 @@ fn check_root_case(c: &mut Case, seed: &[u8], s: &RootSpec) {
             c.count("roots_parsed|WmoParser", 1);
             let got = proj_root(r1);
             for (item, wv) in &want {
-                agg.cmp(c, "root-roundtrip|WmoParser", item, root_item_pred(s, item, vi), vi, wv, got.get(item).map(|x| x.as_str()).unwrap_or("<absent>"));
+                agg.cmp(c, "root-roundtrip|WmoParser", item, root_item_pred(s, item, vi, npred), vi, wv, got.get(item).map(|x| x.as_str()).unwrap_or("<absent>"));
             }
             // derived data: the offset->index map must send every texture's byte offset to its index
             let okmap = r1.texture_offset_index_map.len() == s.textures.len() && toff.iter().enumerate().all(|(i, o)| r1.texture_offset_index_map.get(o) == Some(&(i as u32)));
@@ -1058,11 +1082,11 @@ fn check_root_case(c: &mut Case, seed: &[u8], s: &RootSpec) {
                     }
                     let parts = rewrite_diff(&b1, &b2, ROOT_MAGICS);
                     // every part that could differ is recorded as checked so that `all` is meaningful
-                    for part in ["MOHD.counts", "MOHD.ambient", "MOHD.flags", "MOHD.bbox", "MOTX", "MOMT", "MOGN", "MOGI", "MOSB", "MOPV", "MOPT", "MOPR", "MOVV", "MOVB", "MOLT", "MODS", "MODN", "MODD"] {
+                    for part in MAIN_PARTS {
                         let bad = parts.iter().any(|p| p == part);
-                        agg.check("rewrite-not-bytewise", &format!("root|{part}"), rewrite_pred(s, part, vi), vi, !bad, || (format!("second write of the parsed root differs in {part} ({vname}); first {} bytes, second {} bytes", b1.len(), b2.len()), json!({"differing_parts": parts})));
+                        agg.check("rewrite-not-bytewise", &format!("root|{part}"), rewrite_pred(s, part, vi, npred), vi, !bad, || (format!("second write of the parsed root differs in {part} ({vname}); first {} bytes, second {} bytes", b1.len(), b2.len()), json!({"differing_parts": parts})));
                     }
-                    for part in parts.iter().filter(|p| ["framing", "chunk-order", "MOHD.tail", "MVER", "MFOG", "MCVP"].contains(&p.as_str())) {
+                    for part in parts.iter().filter(|p| !MAIN_PARTS.contains(&p.as_str())) {
                         agg.check("rewrite-not-bytewise", &format!("root|{part}"), "-", vi, false, || (format!("second write of the parsed root differs: {part} ({vname})"), json!({"differing_parts": parts})));
                     }
                 }
@@ -1081,7 +1105,7 @@ fn check_root_case(c: &mut Case, seed: &[u8], s: &RootSpec) {
                 for (item, wv) in &want {
                     // visible_block_lists: no counterpart (see EXCLUSIONS); every other item is compared
                     if let Some(g) = got.get(item) {
-                        agg.cmp(c, "root-roundtrip|parse_wmo", item, root_item_pred(s, item, vi), vi, wv, g);
+                        agg.cmp(c, "root-roundtrip|parse_wmo", item, root_item_pred(s, item, vi, npred), vi, wv, g);
                     }
                 }
                 let okmap = a.texture_offset_index_map.len() == s.textures.len() && toff.iter().enumerate().all(|(i, o)| a.texture_offset_index_map.get(o) == Some(&(i as u32)));
@@ -1289,6 +1313,28 @@ fn valid_group_flags(flags: u32, vi: usize) -> u32 {
 
 /// Struct literals: unavoidable here, the legacy group types have neither `Default` nor a working parser.
 fn build_group(s: &GroupSpec, flags: u32) -> WmoGroup {
+    let mut g = build_group_exact(s, flags);
+    // spare capacity everywhere: a count taken from capacity() instead of len() must show
+    g.vertices.reserve(5);
+    g.normals.reserve(5);
+    g.tex_coords.reserve(5);
+    g.batches.reserve(5);
+    g.indices.reserve(5);
+    if let Some(v) = g.vertex_colors.as_mut() {
+        v.reserve(5);
+    }
+    if let Some(v) = g.bsp_nodes.as_mut() {
+        v.reserve(5);
+    }
+    if let Some(v) = g.doodad_refs.as_mut() {
+        v.reserve(5);
+    }
+    if let Some(l) = g.liquid.as_mut() {
+        l.vertices.reserve(5);
+    }
+    g
+}
+fn build_group_exact(s: &GroupSpec, flags: u32) -> WmoGroup {
     let zero = Vec3::default();
     WmoGroup {
         header: WmoGroupHeader {
